@@ -1,6 +1,7 @@
 package main
 
 import (
+	"math"
 	"math/big"
 	"strconv"
 	"strings"
@@ -51,7 +52,28 @@ func genRaw(r *hx.Rng, places int, wide bool) *big.Int {
 	}
 	small := func() *big.Int { return big.NewInt(int64(r.Intn(12))) }
 	var v *big.Int
-	switch r.Intn(16) {
+	switch r.Intn(20) {
+	case 16: // powers of two and their neighbours, every exponent of the type
+		v = new(big.Int).Lsh(big.NewInt(1), uint(r.Intn(maxBits+1)))
+		v = sign(v.Add(v, big.NewInt(int64(r.Intn(3)-1))))
+	case 17: // powers of ten and their neighbours (19 / 38 digits)
+		k := 19
+		if wide {
+			k = 39
+		}
+		v = pow10(r.Intn(k))
+		v = sign(v.Add(v, big.NewInt(int64(r.Intn(3)-1))))
+	case 18: // half the range, 2^53 (float mantissa), 2^31, 2^32 and neighbours
+		v = new(big.Int).Set(hx.Pick(r, []*big.Int{new(big.Int).Rsh(hi, 1), new(big.Int).Rsh(max64, 1), big.NewInt(1 << 53),
+			big.NewInt(1 << 31), big.NewInt(1 << 32), new(big.Int).Rsh(max128, 1)}))
+		v = sign(v.Add(v, big.NewInt(int64(r.Intn(5)-2))))
+	case 19: // 0 < |value| < 1 written with exactly D digits or fewer (where a sign lands relative to the first digit)
+		k := r.Intn(places)
+		v = new(big.Int).Mul(big.NewInt(int64(1+r.Intn(9))), pow10(k))
+		if r.Bool() && k > 0 {
+			v.Add(v, big.NewInt(int64(r.Intn(10))))
+		}
+		v = sign(v)
 	case 0: // specials
 		v = new(big.Int).Set(hx.Pick(r, []*big.Int{big.NewInt(0), big.NewInt(1), big.NewInt(-1), lo, hi,
 			new(big.Int).Add(lo, big.NewInt(1)), new(big.Int).Sub(hi, big.NewInt(1)), mult, new(big.Int).Neg(mult),
@@ -127,6 +149,9 @@ func group(s string) string {
 	return sb.String()
 }
 
+// sizes around the usual thresholds of small-size fast paths, fixed buffers and growth policies
+var sizes = []int{11, 12, 13, 15, 16, 17, 18, 19, 20, 23, 24, 25, 31, 32, 33, 38, 39, 40, 63, 64, 65, 127, 128, 129, 255, 256, 257, 300, 1000, 1100}
+
 var junk = []string{" ", "_", "e", "E", "x", ".", "-", "+", ",", "\"", "\xff", "\xc3", "\x00", "a", "\xe2\x88\x92", "0x", "\t", "\n", "1", "0"}
 
 // genLit produces decimal literals (and near misses) for FromString.
@@ -137,6 +162,21 @@ func genLit(r *hx.Rng, places int, wide bool) string {
 	}
 	// integer part
 	var ip string
+	if r.Chance(1, 25) { // size thresholds: very long digit runs in every position
+		n := hx.Pick(r, sizes)
+		switch r.Intn(5) {
+		case 0: // long integer part (f64: range error, f128: saturation)
+			return pick3(r) + strconv.Itoa(1+r.Intn(9)) + digits(r, n) + hx.Pick(r, []string{"", ".", ".5"})
+		case 1: // many leading zeros
+			return pick3(r) + strings.Repeat("0", n) + digits(r, r.Intn(5)) + hx.Pick(r, []string{"", ".", ".25"})
+		case 2: // long fraction (cut at D digits)
+			return pick3(r) + digits(r, r.Intn(4)) + "." + digits(r, n)
+		case 3: // long fraction of zeros and a late digit
+			return pick3(r) + digits(r, r.Intn(4)) + "." + strings.Repeat("0", n) + "1"
+		default: // many separators
+			return pick3(r) + strings.Repeat(",", n) + digits(r, 1+r.Intn(5)) + strings.Repeat(",", r.Intn(3)) + "." + digits(r, r.Intn(places+2))
+		}
+	}
 	switch r.Intn(12) {
 	case 0:
 		ip = ""
@@ -223,7 +263,9 @@ func genGarbage(r *hx.Rng) string {
 	case 0:
 		return hx.Pick(r, []string{"", "-", "+", ".", "-.", "+.", "-0", "-0.", "-00", "-00.5", "-0.5", "+0", "+0.5", "-.5", ".5", "5.",
 			",", ",,", "-,", "1,", ",1", "\"", "\"\"", "\"\"\"", "\"1\"", "\"-0.5\"", "\"", "1\"", "\"1", "--1", "+-1", "1-", "0x10", "1_000",
-			" 1", "1 ", "\xff", "\xc3\x28", "\xe2\x88\x921", "１", "1.2.3", "..", "-..", "NaN", "inf", "Inf", "-Inf", "nil", "null", "true"})
+			" 1", "1 ", "\xff", "\xc3\x28", "-,", "+,", ",.", ",-", ",+", "-0,", "-0.0", "-0.00", "-00.0", "-000", "+0", "+00", "+0.0", "-,0", ",,,", ".,",
+			",.,", "-.,", "-,.", "+,.", "-.0", "+.0", ".0", "0.", "0", "00", "-0,0", "0,0", "0,.5", ",.5", "-,.5", "-.,5", "-0.,5", "\"-\"", "\"+\"", "\".\"", "\",\"",
+			"\"\"\"\"", "\"-0\"", "\"+.5\"", "-\"1\"", "\"1\"-", "\xe2\x88\x921", "１", "1.2.3", "..", "-..", "NaN", "inf", "Inf", "-Inf", "nil", "null", "true"})
 	case 1:
 		n := r.Intn(8)
 		b := make([]byte, n)
@@ -280,9 +322,27 @@ func (asArea) Gen(r *hx.Rng, n int, _ string, emit func(string)) {
 		ty, wide := pickTy(r)
 		mult := pow10(d)
 		var v *big.Int
-		switch r.Intn(6) {
+		switch r.Intn(8) {
+		case 6: // f128: integer part k·2^64 + small (AsInt64 keeps the low word only), and the ends of the 128-bit range
+			v = new(big.Int).Lsh(big.NewInt(int64(1+r.Intn(5))), uint(hx.Pick(r, []int{64, 65, 70, 96})))
+			v.Add(v, big.NewInt(int64(r.Intn(300)-150)))
+			if r.Bool() {
+				v.Neg(v)
+			}
+			v.Mul(v, mult)
+			v = clamp(v, wide)
+		case 7: // half of MaxInt64 and neighbours, as integer part and as raw value
+			v = new(big.Int).Rsh(max64, uint(r.Intn(3)))
+			v.Add(v, big.NewInt(int64(r.Intn(5)-2)))
+			if r.Bool() {
+				v.Neg(v)
+			}
+			if r.Bool() {
+				v.Mul(v, mult)
+			}
+			v = clamp(v, wide)
 		case 0, 1: // integers around the bounds of the target types
-			b := hx.Pick(r, []uint{0, 7, 8, 15, 16, 31, 32, 63, 64})
+			b := hx.Pick(r, []uint{0, 7, 8, 15, 16, 31, 32, 63, 64, 65, 126})
 			v = new(big.Int).Lsh(big.NewInt(1), b)
 			if b == 0 {
 				v.SetInt64(0)
@@ -307,6 +367,52 @@ func (asArea) Gen(r *hx.Rng, n int, _ string, emit func(string)) {
 
 func (txtArea) Gen(r *hx.Rng, n int, _ string, emit func(string)) {
 	for i := 0; i < n; i++ {
+		if r.Chance(1, 8) { // txt.Comma[T] of integers: limits, powers of ten and of two and their neighbours
+			var v *big.Int
+			switch r.Intn(5) {
+			case 0:
+				v = new(big.Int).Set(hx.Pick(r, []*big.Int{big.NewInt(0), min64, max64, new(big.Int).Sub(two64, big.NewInt(1)), new(big.Int).Add(max64, big.NewInt(1)),
+					big.NewInt(-1), big.NewInt(999), big.NewInt(1000), big.NewInt(-999), big.NewInt(-1000), big.NewInt(127), big.NewInt(-128), big.NewInt(255)}))
+			case 1:
+				v = pow10(r.Intn(20))
+				v.Add(v, big.NewInt(int64(r.Intn(3)-1)))
+				if r.Bool() {
+					v.Neg(v)
+				}
+			case 2:
+				v = new(big.Int).Lsh(big.NewInt(1), uint(r.Intn(64)))
+				v.Add(v, big.NewInt(int64(r.Intn(3)-1)))
+				if r.Bool() {
+					v.Neg(v)
+				}
+			default:
+				v = randBits(r, 1+r.Intn(64))
+				if r.Bool() {
+					v.Neg(v)
+				}
+			}
+			if v.Cmp(min64) < 0 {
+				v = new(big.Int).Set(min64)
+			}
+			if v.Cmp(mask64) > 0 {
+				v = new(big.Int).Set(mask64)
+			}
+			emit("commai " + v.String())
+			continue
+		}
+		if r.Chance(1, 12) { // size thresholds: long digit strings (100+, 1000+ digits), long quoted strings
+			n := hx.Pick(r, sizes)
+			if r.Chance(1, 4) {
+				emit("unq " + hx.Hex([]byte(hx.Pick(r, []string{`"`, ``})+digits(r, n)+hx.Pick(r, []string{`"`, ``}))))
+			} else {
+				s := hx.Pick(r, []string{"", "-"}) + digits(r, n)
+				if r.Bool() {
+					s += "." + digits(r, hx.Pick(r, sizes))
+				}
+				emit("comma " + hx.Hex([]byte(s)))
+			}
+			continue
+		}
 		if r.Chance(1, 3) {
 			s := genGarbage(r)
 			if r.Bool() {
@@ -348,7 +454,42 @@ func (floatArea) Gen(r *hx.Rng, n int, _ string, emit func(string)) {
 		ty, wide := pickTy(r)
 		mult := pow10(d)
 		var v *big.Int
-		switch r.Intn(8) {
+		switch r.Intn(12) {
+		case 8, 9: // 2^53 < |raw| < 2^63 with at most 17 significant digits: float64(raw) is inexact although the value
+			// is often exactly identified by a float (both types must take the exact path here)
+			sig := randBits(r, 1+r.Intn(56))
+			v = new(big.Int).Add(sig, big.NewInt(1))
+			for v.Cmp(big.NewInt(1<<53)) <= 0 {
+				v.Mul(v, big.NewInt(10))
+			}
+			for v.Cmp(max64) < 0 && r.Chance(2, 3) {
+				nv := new(big.Int).Mul(v, big.NewInt(10))
+				if nv.Cmp(max64) >= 0 {
+					break
+				}
+				v = nv
+			}
+		case 10: // at and next to the midpoint of two adjacent floats of the target type
+			var lo, hiF float64
+			if r.Bool() {
+				x := math.Float32frombits(uint32(r.Intn(0x7f000000-0x20000000) + 0x20000000))
+				lo, hiF = float64(x), float64(math.Nextafter32(x, float32(math.Inf(1))))
+			} else {
+				lo = math.Float64frombits(uint64(r.Intn(0x7fe-0x300)+0x300)<<52 | r.U64()>>12)
+				hiF = math.Nextafter(lo, math.Inf(1))
+			}
+			mid := new(big.Rat).Add(new(big.Rat).SetFloat64(lo), new(big.Rat).SetFloat64(hiF))
+			mid.Quo(mid, big.NewRat(2, 1))
+			mid.Mul(mid, new(big.Rat).SetInt(mult))
+			v = new(big.Int).Quo(mid.Num(), mid.Denom())
+			v.Add(v, big.NewInt(int64(r.Intn(3)-1)))
+		case 11: // exactly a float of the target type, scaled (when it has at most D decimals it must be accepted)
+			x := float64(math.Float32frombits(uint32(r.Intn(0x4f000000-0x30000000) + 0x30000000)))
+			if r.Bool() {
+				x = float64(r.Intn(1<<20)) / float64(uint64(1)<<uint(r.Intn(d+1)))
+			}
+			q := new(big.Rat).Mul(new(big.Rat).SetFloat64(x), new(big.Rat).SetInt(mult))
+			v = new(big.Int).Quo(q.Num(), q.Denom())
 		case 0: // integers, among them those >= 10^6 whose shortest %g form uses an exponent
 			v = new(big.Int).Mul(big.NewInt(int64(r.Intn(5))), pow10(r.Intn(13)))
 			v.Add(v, big.NewInt(int64(r.Intn(3))))
